@@ -9,6 +9,7 @@ import PyGqlModel.AsyncExecLoop
   `<op>` = {"kind":"query"|"mutation","fields":[{"key","mode","out"}…]} (see harness/corr/C08_world.py: to_model).
     {"op":"async-loop","case":<op>,"schedule":[i…]} → the same with today's LOOP form of execute_fields_serially (AsyncExecLoop.lean)
     {"op":"e2-async","case":<e2>,"schedule":[i…]} / {"op":"e2-blocking","case":<e2>}   (AsyncExecE2.lean)
+    {"op":"e2-serial-async","case":<e2 with before = []>,"schedule":[i…]}                 the same as a mutation
   `<e2>` = {"before":[field…],"key":…,"items":[comp…],"after":[field…]}: the list field `key` raises after `items`.
 -/
 open PyGql PyGql.AsyncExec
@@ -95,6 +96,9 @@ def handle (j : J) : J :=
   | "e2-async" =>
     let sched := (j.arrD "schedule").map fun x => (x.asNat?).getD 0
     resultToJson (E2.runAsync (e2OfJson (j.getD "case")) sched)
+  | "e2-serial-async" =>
+    let sched := (j.arrD "schedule").map fun x => (x.asNat?).getD 0
+    resultToJson (E2.runAsyncSerial (e2OfJson (j.getD "case")) sched)
   | "e2-blocking" => resultToJson (E2.runBlocking (e2OfJson (j.getD "case")))
   | _ => .obj [("error", .str "bad-op")]
 
